@@ -118,6 +118,41 @@ def run(chk):
                              % kind.upper(), dict(ctx, trainer=kind))
                 if shared != kw0:
                     chk.fail("%s.fit_using_array modifies the caller's ubm_kwargs dict: %r" % (kind.upper(), shared), dict(ctx, trainer=kind))
+        # ---- the integer seed given as a NumPy integer scalar (an element of an array, a value read from a file) is the same seed
+        for kind in ("isv", "jfa"):
+            def fit_seed(sd_):
+                mm = fa.make_machine(kind, copy.deepcopy(ubm), 2, 2, em_iterations=1, random_state=sd_).fit(stats, y)
+                return np.concatenate([np.ravel(mm.U), np.ravel(mm.D)] + ([np.ravel(mm.V)] if kind == "jfa" else []))
+            a_int = fit_seed(int(seed))
+            np.random.seed(r.randint(0, 2 ** 31))
+            a_np = fit_seed(np.int64(seed))
+            np.random.seed(r.randint(0, 2 ** 31))
+            a_np2 = fit_seed(np.arange(seed, seed + 1, dtype=np.int32)[0])
+            chk.count(1, key=("numpy-integer-seed", kind))
+            if not (same(a_int, a_np) and same(a_int, a_np2)):
+                chk.fail("%s trained with random_state given as a NumPy integer scalar differs from the same integer as a Python int (or is not reproducible)" % kind.upper(),
+                         dict(ctx, trainer=kind))
+        # ---- JFA / ISV from labelled arrays, in memory and as a Dask array, classes of unequal size, ids swapped: the same model
+        if rd % 2 == 1:
+            gx = gen.nprng(r)
+            Xu = np.asarray(ubm.means)[gx.integers(0, 2, size=(6, 3))] + gx.normal(size=(6, 3, 2)) * np.sqrt(np.asarray(ubm.variances).mean())
+            yu = np.array([0, 0, 1, 1, 1, 1])
+            for kind in ("isv", "jfa"):
+                def fau(Xin, yin):
+                    mm = fa.make_machine(kind, copy.deepcopy(ubm), 1, 1, em_iterations=1, random_state=int(seed))
+                    mm.fit_using_array(Xin, yin)
+                    return [np.asarray(mm.U), np.asarray(mm.D)] + ([np.asarray(mm.V)] if kind == "jfa" else [])
+                try:
+                    ref_u = fau(Xu, yu)
+                    outs = {"dask": fau(da.from_array(Xu, chunks=((2, 4), (3,), (2,))), yu), "ids swapped": fau(Xu, 1 - yu),
+                            "dask, ids swapped": fau(da.from_array(Xu, chunks=((3, 3), (3,), (2,))), 1 - yu)}
+                except Exception as e:
+                    chk.fail("%s.fit_using_array with classes of unequal size (in memory / Dask / ids swapped) raises %r" % (kind.upper(), e), dict(ctx, trainer=kind))
+                    continue
+                chk.count(1, key=("fit_using_array unequal classes", kind))
+                for nm_, o_ in outs.items():
+                    if not all(close(a_, b_, rtol=1e-7) for a_, b_ in zip(ref_u, o_)):
+                        chk.fail("%s.fit_using_array with classes of sizes (2, 4): the %s run differs from the in-memory one" % (kind.upper(), nm_), dict(ctx, trainer=kind, variant=nm_))
         # ---- sample order (explicit initialisation where the initialiser itself is not under test)
         perm = g.permutation(len(X))
         k1, _, _ = kt.run_kfit(init, X, None, cap=3)
